@@ -5,6 +5,8 @@ import Mathlib.Data.List.TakeWhile
 import Mathlib.Tactic.Ring
 import Mathlib.Tactic.Linarith
 import Mathlib.Tactic.NormNum
+import Mathlib.Tactic.Positivity
+import Mathlib.Tactic.NormNum.Basic
 import Mathlib.Algebra.Order.Field.Rat
 
 /-! Helper lemmas for C02 (`PewModel/Agilent.lean`). -/
@@ -384,37 +386,53 @@ theorem clip_inactive (R k r j : Nat) (hr : r < R) (hj : j < k) : r * k + j ≤ 
   have h2 : (r + 1) * k ≤ R * k := Nat.mul_le_mul_right k hr
   omega
 
-/-- `SpectrumOffset // ByteCount` recovers the record number when the header part of the offset is
-smaller than one record -/
-theorem offset_div (h r bc : Nat) (hh : h < bc) : (h + r * bc) / bc = r := by
-  have hbc : 0 < bc := by omega
-  rw [Nat.add_mul_div_right _ _ hbc, Nat.div_eq_of_lt hh, Nat.zero_add]
+/-- `(SpectrumOffset - 68) // ByteCount` recovers the record number -/
+theorem offset_div (r bc : Nat) (hbc : 0 < bc) :
+    (((68 + r * bc : Nat) : Int) - profileHeader) / (bc : Int) = (r : Int) := by
+  unfold profileHeader
+  have : (((68 + r * bc : Nat) : Int) - 68) = (r : Int) * (bc : Int) := by push_cast; ring
+  rw [this, Int.mul_ediv_cancel _ (by omega)]
 
 /-- a well laid out data file: `R` scan records pointing at `R` profile records of `k` values,
-`SpectrumOffset = h + r·ByteCount` with `h < ByteCount` -/
-structure Layout {α : Type} (R k h bc : Nat) (scans : List ScanRec) (profile : List (List α)) : Prop where
+`SpectrumOffset = 68 + r·ByteCount` (the byte position of record `r` behind the 68-byte header) -/
+structure Layout {α : Type} (R k bc : Nat) (scans : List ScanRec) (profile : List (List α)) : Prop where
   nprofile : profile.length = R
   nscans : scans.length = R
   width : ∀ row ∈ profile, row.length = k
-  offs : ∀ r (hr : r < scans.length), scans[r].off = h + r * bc ∧ scans[r].bc = bc
-  small : h < bc
+  offs : ∀ r (hr : r < scans.length), scans[r].off = 68 + r * bc ∧ scans[r].bc = bc
+  pos : 0 < bc
 
-theorem decodeMass_getElem {α : Type} {R k h bc : Nat} {scans : List ScanRec} {profile : List (List α)}
-    (L : Layout R k h bc scans profile) (r j : Nat) (hr : r < R) (hj : j < k) :
+theorem decodeMass_getElem {α : Type} {R k bc : Nat} {scans : List ScanRec} {profile : List (List α)}
+    (L : Layout R k bc scans profile) (r j : Nat) (hr : r < R) (hj : j < k) :
     (decodeMass k scans profile (j + 1))[r]? = some ((profile[r]?).bind (fun row => row[j]?)) := by
   unfold decodeMass
   have hr' : r < scans.length := by rw [L.nscans]; exact hr
   rw [List.getElem?_map, List.getElem?_eq_getElem hr']
   simp only [Option.map_some]
   have ho := L.offs r hr'
-  rw [ho.1, ho.2, offset_div h r bc L.small, L.nprofile]
+  rw [ho.1, ho.2, offset_div r bc L.pos, L.nprofile]
   have hc := clip_inactive R k r j hr hj
-  rw [Nat.add_sub_cancel, Nat.min_eq_left hc]
+  have hidx : min ((r : Int) * (k : Int) + (((j + 1 : Nat) : Int) - 1)) (((R * k : Nat) : Int) - 1)
+      = ((r * k + j : Nat) : Int) := by
+    push_cast
+    have h1 : (r : Int) * k + j ≤ (R : Int) * k - 1 := by
+      have : ((r * k + j : Nat) : Int) ≤ ((R * k - 1 : Nat) : Int) := by exact_mod_cast hc
+      have hpos : 1 ≤ R * k := by
+        have : 0 < R * k := Nat.mul_pos (by omega) (by omega)
+        omega
+      push_cast [Nat.cast_sub hpos] at this
+      linarith
+    rw [min_eq_left (by linarith)]
+    ring
+  rw [hidx]
+  unfold pyIndex
+  rw [if_pos (by positivity)]
+  simp only [Int.toNat_natCast]
   unfold flat
   rw [flatten_index profile k L.width r j (by rw [L.nprofile]; exact hr) hj]
 
-theorem profile_getElem_some {α : Type} {R k h bc : Nat} {scans : List ScanRec} {profile : List (List α)}
-    (L : Layout R k h bc scans profile) (r j : Nat) (hr : r < R) (hj : j < k) :
+theorem profile_getElem_some {α : Type} {R k bc : Nat} {scans : List ScanRec} {profile : List (List α)}
+    (L : Layout R k bc scans profile) (r j : Nat) (hr : r < R) (hj : j < k) :
     ∃ v, (profile[r]?).bind (fun row => row[j]?) = some v := by
   have hr' : r < profile.length := by rw [L.nprofile]; exact hr
   have hw := L.width profile[r] (List.getElem_mem hr')
@@ -491,8 +509,8 @@ theorem column_length {α : Type} (profile : List (List α)) (j : Nat)
     simp only [List.length_cons]
     rw [ih (fun x hx => h x (by simp [hx]))]
 
-theorem decodeMass_eq_column {α : Type} {R k h bc : Nat} {scans : List ScanRec} {profile : List (List α)}
-    (L : Layout R k h bc scans profile) (j : Nat) (hj : j < k) :
+theorem decodeMass_eq_column {α : Type} {R k bc : Nat} {scans : List ScanRec} {profile : List (List α)}
+    (L : Layout R k bc scans profile) (j : Nat) (hj : j < k) :
     decodeMass k scans profile (j + 1) = (column profile j).map some := by
   have hcol : ∀ row ∈ profile, ∃ v, row[j]? = some v := by
     intro row hrow
@@ -510,8 +528,8 @@ theorem decodeMass_eq_column {α : Type} {R k h bc : Nat} {scans : List ScanRec}
       rw [List.length_map, column_length profile j hcol, L.nprofile]; omega
     rw [List.getElem?_eq_none h1, List.getElem?_eq_none h2]
 
-theorem decode_allSome {α : Type} {R k h bc : Nat} {scans : List ScanRec} {profile : List (List α)}
-    (L : Layout R k h bc scans profile) :
+theorem decode_allSome {α : Type} {R k bc : Nat} {scans : List ScanRec} {profile : List (List α)}
+    (L : Layout R k bc scans profile) :
     allSome ((decode (List.range' 1 k) scans profile).map allSome) = some ((List.range k).map (column profile)) := by
   unfold decode
   rw [List.length_range', List.map_map]
